@@ -189,6 +189,44 @@ def gen_hammer(cid, kind, rng, thorough):
     return (hdr, ops)
 
 
+def gen_gcstorm(cid, kind, rng, thorough):
+    """Collector against the cache's bucket locks: 3 threads recompute a few operations over and over on an apply
+    cache of 1 or 2 buckets while the fourth thread runs one collection after the other for as long as they work
+    (`PGC <max>`): every `pre_gc` has to take buckets the workers are hammering with `try_lock` at that moment, a few
+    thousand times per case."""
+    nv = rng.randrange(5, 8)
+    pool = rng.randrange(5, 9)
+    ops = [f"VARS {nv}"]
+    for i in range(pool):
+        ops.append(f"{rng.choice(['TT', 'TTI'])} h{i} {nv} {ddgen.rand_tt(rng, nv):x}")
+    ops.append("SNAP")
+    k = 4
+    ops.append(f"PAR {k}")
+    keys = [(rng.choice(BOOL_OPS), rng.randrange(pool), rng.randrange(pool)) for _ in range(rng.randrange(3, 7))]
+    base = 100
+    lines = [[] for _ in range(k)]
+    for t in range(k - 1):
+        rounds = rng.randrange(200, 300)
+        for rd in range(rounds):
+            o, a, b = rng.choice(keys)
+            d = base; base += 1
+            lines[t].append(f"{o} h{d} h{a} h{b}")
+            if rd < rounds - 4:
+                lines[t].append(f"DROP h{d}")
+    lines[k - 1] = ["PGC 3000"]
+    idx = [0] * k
+    remaining = sum(len(l) for l in lines)
+    while remaining:
+        t = rng.choice([i for i in range(k) if idx[i] < len(lines[i])])
+        ops.append(f"T{t} {lines[t][idx[t]]}")
+        idx[t] += 1
+        remaining -= 1
+    ops += ["ENDPAR", "SNAP", "DROPALL", "GC", "SNAP"]
+    hdr = ddgen.header(cid, kind, cap=1 << 16, cache=rng.choice([1, 2]), threads=rng.choice([1, 2, 4]),
+                       extra=f"seed={rng.randrange(1 << 30)} yield={rng.choice([0, 20, 100])}")
+    return (hdr, ops)
+
+
 def gen_stress(cid, kind, rng, thorough):
     """Free-running stress on larger diagrams (11..13 variables, functions built from random connectives): 6
     threads recompute short scripts over a shared pool while one thread collects continuously; the garbage is
@@ -251,6 +289,10 @@ def gen_cases(ctx):
         if kind != "zbdd":
             for _ in range(24 if thorough else 6):
                 cases.append(gen_stress(f"s{cid}", kind, rng, thorough)); cid += 1
+    # appended after the other families so that their cases do not depend on these
+    for kind in ("bdd", "bcdd", "zbdd"):
+        for _ in range(48 if thorough else 12):
+            cases.append(gen_gcstorm(f"g{cid}", kind, rng, thorough)); cid += 1
     return cases
 
 
